@@ -47,11 +47,15 @@ def run(ch, config, res):
         nclients = 1 + wl.weighted("nclients", [3, 2, 1])
         nops = 5 + wl.int("nops", 36)
         rsz = [4096, 1, 7, 64][wl.weighted("read_size", [6, 1, 1, 1])]
+        shapes = wl.flag("status_shapes", 1, 3)
     cfg = ServerConfig(version=version, max_scripts=3, max_script_size=120, max_total=260)
     world = World(ch, cfg, client_impl=config.get("client", "real"), read_size=rsz)
     srv = world.server
     srv.order_variation = True
     srv.text_lit_variation = True
+    # in a third of the sessions status replies take every RFC 5804 shape (codes, multi-line literal texts with
+    # look-alike lines): their content is C09's business, a reply left half-read is a desynchronisation = ours
+    srv.status_variation = shapes
     counter = [0]
     failure = [None]
     kinds = set()
